@@ -152,4 +152,9 @@ def _depends_on_outlier(units, params, uid):
 
 
 if __name__ == "__main__":
-    main()
+    from pyvc.values import Undecided as _Undecided
+
+    try:
+        main()
+    except _Undecided as _e:
+        print(json.dumps({"status": "undecided", "note": f"the symbolic side left the modelled subset: {_e}", "evaluations": 0, "violations": []}))
